@@ -14,12 +14,11 @@ rewriting meets, including in nodes produced by earlier rewrites
 | flag | region | finding |
 |---|---|---|
 | `zero-arg-expr` | matched `assert()` in expression position | F18 |
-| `underscore-in-args` | statement `assert(t.x, f(_))`: inside the `do` block the kept non-call argument becomes `local _ = t.x` and the later kept argument reads that local instead of the program's `_` | F36 |
 | `multi-position` | profiling call as the last element of an argument / return / table list: becomes one `nil` instead of no value | F33 |
 | `global-write` | the program assigns the targeted global itself (`assert = …`, `function assert() … end`, `NAME = …`, `_G.NAME = …`, `debug.profilebegin = …`): outside the property's quantifier, the rule cannot know | – |
 
 Fixed in /repo and no longer excused (the flags are gone): F19 (`shadowed-prefix`), F30 (`nested-single`),
-F31 (`underscore-leak`), F32 (`single-kept-expr`).
+F31 (`underscore-leak`), F32 (`single-kept-expr`), F36 (`underscore-in-args`).
 -/
 namespace DarkluaModel.C17
 open Rules Rules.RemoveCallMatch
@@ -96,10 +95,11 @@ def isAtomP : Expr → Bool
   | _ => false
 
 /-- dropped arguments are atoms, and the kept ones are either all calls (→ call statements) or all
-non-calls (→ one `do local _ = … end`) -/
+non-calls that do not mention `_` (→ one `do local _ = … end`) -/
 def stmtOK (args : List Expr) : Bool :=
   (args.all fun e => keeps e || isAtomP e) &&
-  ((args.all fun e => !keeps e || isCall (getInner e)) || (args.all fun e => !keeps e || !isCall (getInner e)))
+  ((args.all fun e => !keeps e || isCall (getInner e)) ||
+    (args.all fun e => !keeps e || (!isCall (getInner e) && !usesDiscard e)))
 
 def exprRoundOK : Expr → Bool
   | .call _ none _ [_] => true
